@@ -252,8 +252,8 @@ func main() {
 			jcase{Kind: "proposal", Cfg: cfg, Recs: rs, Code: code, Value: v, Str: s, OK: err == nil, Err: e})
 	}
 	ms := govkeeper.NewMsgServerImpl(k)
-	doMsg := func(cfg int, allowed bool, nw *govtypes.NetworkProperties, how string) {
-		c := withState(cfg, 0)
+	doMsg := func(cfg, rs int, allowed bool, nw *govtypes.NetworkProperties, how string) {
+		c := withState(cfg, rs)
 		proposer := sdk.AccAddress("proposer____________")
 		if allowed {
 			actor := govtypes.NewDefaultActor(proposer)
@@ -285,8 +285,8 @@ func main() {
 		if err != nil {
 			e = err.Error()
 		}
-		emit(fmt.Sprintf("CMsg %d %s %s %s %s", cfg, hx.B(allowed), patchCoq(cfgs[cfg], nw), hx.B(err == nil), patchCoq(cfgs[cfg], after)),
-			jcase{Kind: "msg", Cfg: cfg, Allowed: allowed, OK: err == nil, Err: e, Mutated: how})
+		emit(fmt.Sprintf("CMsg %d %d %s %s %s %s", cfg, rs, hx.B(allowed), patchCoq(cfgs[cfg], nw), hx.B(err == nil), patchCoq(cfgs[cfg], after)),
+			jcase{Kind: "msg", Cfg: cfg, Recs: rs, Allowed: allowed, OK: err == nil, Err: e, Mutated: how})
 	}
 	doGen := func(nw *govtypes.NetworkProperties, how string) {
 		c, _ := base.CacheContext()
@@ -331,7 +331,7 @@ func main() {
 			doProp(cfg, rs, code, v, s)
 		case 7, 8:
 			nw, how := mutate(r, cfgs[r.Intn(len(cfgs))], 30)
-			doMsg(cfg, r.Chance(70), nw, how)
+			doMsg(cfg, rs, r.Chance(70), nw, how)
 		default:
 			nw, how := mutate(r, cfgs[r.Intn(len(cfgs))], 30)
 			doGen(nw, how)
